@@ -14,6 +14,8 @@ import SH.Model.Norm
 import SH.Model.RawTag
 import SH.Gen.C11
 import SH.Lemmas.NormC11
+import SH.Lemmas.NormInPlaceC11
+import SH.Lemmas.NormSpecC11
 
 namespace SH.C11
 
@@ -364,9 +366,10 @@ theorem valid_is_utf8 (T : Tables) (maxLen : Nat) (b : List UInt8) (hv : valid T
     | cons _ _ => simp at h
   · exact valid_utf8_aux T _ b true h
 
-/-! non-vacuity, on the toolchain's tables (bytes: 0x20 ' ', 0x09 tab, 0xC2 0xA0 = U+00A0, 0xE2 0x80 0x8B = U+200B) -/
 def G := SH.Gen.C11.tables
 set_option maxRecDepth 200000
+
+/-! non-vacuity, on the toolchain's tables (bytes: 0x20 ' ', 0x09 tab, 0xC2 0xA0 = U+00A0, 0xE2 0x80 0x8B = U+200B) -/
 
 example : force G 128 [0x20, 0x61, 0x09, 0x20, 0xC2, 0xA0, 0x62, 0x20] = [0x61, 0x20, 0x62] := by decide
 example : force G 128 [0x61, 0xFF, 0xE2, 0x80, 0x8B] = [0x61, 0xEF, 0xBF, 0xBD, 0xEF, 0xBF, 0xBD] := by decide
@@ -377,6 +380,144 @@ example : valid G 128 [0x61, 0x20, 0xD0, 0x96] = true ∧ valid G 128 [0x61, 0x2
 example : force G 4 [0x61, 0x20, 0xD0, 0x96, 0xD0, 0x96] = [0x61, 0x20, 0xD0, 0x96] ∧
     force G 4 [0x61, 0x62, 0x63, 0x20, 0x64] = [0x61, 0x62, 0x63] ∧
     force G 4 [0x61, 0x62, 0x63, 0xD0, 0x96] = [0x61, 0x62, 0x63] := by decide
+
+/-! ### what "valid" means, in the words of the property -/
+
+/-- `valid` (the model of validStringValue / ValidStringValue / ValidStringValueBytes) holds exactly when
+    * the bytes are at most maxLen long ("at most 128 bytes"),
+    * they are well-formed UTF-8: they decode, DecodeRune by DecodeRune, into a rune list `rs` ("UTF-8"),
+    * every rune is printable per the table, and a rune the table calls a space can only be U+0020
+      ("printable", "ASCII spaces"),
+    * the first and the last rune are not a space ("trimmed"),
+    * no two consecutive runes are both spaces ("single spaces").
+    Where the code and this reading could differ and do not: on bytes 0x20..0x7e the code does not consult the tables
+    (bytePrint, `c == ' '`) — equal to the tables by Tables.Sane (re-proved for the toolchain's tables on every run);
+    "printable" is unicode.IsPrint, which already excludes every space except U+0020 and every control/format rune;
+    the empty value is valid; a literal U+FFFD is accepted (it is printable), only (RuneError, width ≤ 1) is malformed. -/
+theorem valid_iff (T : Tables) (hT : T.Sane) (maxLen : Nat) (b : List UInt8) :
+    valid T maxLen b = true ↔
+      b.length ≤ maxLen ∧
+      ∃ rs, runesOf b = some rs ∧ (∀ r ∈ rs, RuneOK T r) ∧ rs.head? ≠ some 0x20 ∧ rs.getLast? ≠ some 0x20 ∧
+        NoDoubleSpace rs := by
+  rw [valid_eq]
+  simp only [Bool.and_eq_true, decide_eq_true_eq, Bool.or_eq_true]
+  cases b with
+  | nil =>
+    simp only [List.length_nil, Nat.zero_le, List.isEmpty_nil, true_or, and_self, true_and, true_iff]
+    exact ⟨[], rfl, by simp, by simp, by simp, by simp [NoDoubleSpace]⟩
+  | cons c rest =>
+    simp only [List.isEmpty_cons, Bool.false_eq_true, false_or, and_congr_right_iff]
+    intro _
+    unfold validL runesOf
+    rw [validLoop_iff T hT]
+    constructor
+    · rintro ⟨rs, h1, h2⟩
+      obtain ⟨g1, g2, _, g4, g5⟩ := (goodR_iff T hT rs true).1 h2
+      exact ⟨rs, h1, g1, g2 rfl, g4, g5⟩
+    · rintro ⟨rs, h1, g1, g2, g4, g5⟩
+      refine ⟨rs, h1, (goodR_iff T hT rs true).2 ⟨g1, fun _ => g2, ?_, g4, g5⟩⟩
+      intro h
+      exact absurd h (decodeAll_cons_ne_nil _ c rest rs h1)
+
+/-- force_valid restated on the property's own notion: the forced value is at most maxLen bytes of well-formed UTF-8
+    whose runes are printable, with only ASCII spaces, none leading, trailing or doubled. -/
+theorem force_valid_spec (T : Tables) (hT : T.Sane) (maxLen : Nat) (b : List UInt8) :
+    (force T maxLen b).length ≤ maxLen ∧
+    ∃ rs, runesOf (force T maxLen b) = some rs ∧ (∀ r ∈ rs, RuneOK T r) ∧ rs.head? ≠ some 0x20 ∧
+      rs.getLast? ≠ some 0x20 ∧ NoDoubleSpace rs :=
+  (valid_iff T hT maxLen _).1 (force_valid T hT maxLen b).1
+
+/-- the runes of a valid value are the same notion of well-formedness the strict-normalisation theorems use -/
+theorem runesOf_utf8Valid (b : List UInt8) (rs : List Nat) (h : runesOf b = some rs) : utf8Valid b = true :=
+  decodeAll_utf8Ok _ b rs h
+
+/-! non-vacuity: "a b" / "Ж" decode and satisfy every clause; one failing witness per clause -/
+example : runesOf [0x61, 0x20, 0xD0, 0x96] = some [0x61, 0x20, 0x416] := by decide
+example : valid G 128 [0x61, 0x20, 0xD0, 0x96] = true := by decide
+example : valid G 128 [0x20, 0x61] = false ∧ valid G 128 [0x61, 0x20] = false ∧
+    valid G 128 [0x61, 0x20, 0x20, 0x62] = false ∧ valid G 128 [0x61, 0xC2, 0xA0, 0x62] = false ∧
+    valid G 128 [0x61, 0x09, 0x62] = false ∧ valid G 128 [0x61, 0xC2, 0xAD] = false ∧
+    valid G 128 [0x61, 0xC0, 0x80] = false ∧ valid G 2 [0x61, 0x62, 0x63] = false := by decide
+example : RuneOK G 0x416 ∧ RuneOK G 0x20 ∧ ¬ RuneOK G 0xA0 ∧ ¬ RuneOK G 0xAD ∧ ¬ RuneOK G 0x09 := by
+  unfold RuneOK; decide
+
+/-! ### in place: ForceValidStringValueBytes(b) calls appendValidStringValue(b[:0], b, …) — dst aliases src -/
+
+/-- For every backing array `arr` (the caller's b[:cap(b)]) and every slice length n ≤ cap, the in-place call —
+    modelled at the level of the shared array, each read looking at the array as it is at that moment — returns
+    exactly the out-of-place `force` of the slice's bytes.  (What makes it safe in the code as it is: the slow path
+    writes into the local `buf` and touches the shared array only after the last read, lemma slowIP_buffered; the
+    fast path copies the bytes onto themselves, lemma poke_self.) -/
+theorem force_in_place_eq (T : Tables) (maxLen : Nat) (arr : List UInt8) (n : Nat) (hn : n ≤ arr.length) :
+    (forceInPlace .buffered T maxLen arr n).value = force T maxLen (arr.take n) := by
+  rw [forceInPlace_buffered T maxLen arr n hn]
+  by_cases h0 : (arr.take n).isEmpty = true
+  · simp only [h0, ↓reduceIte]
+    have : arr.take n = [] := by simpa using h0
+    rw [this]; rfl
+  · simp only [h0, Bool.false_eq_true, ↓reduceIte]
+    unfold appendAtZero
+    split <;> rfl
+
+/-- … and the caller's array afterwards: the result sits at its start when it fits the capacity (the returned slice
+    aliases the array), otherwise the array is untouched and the result lives in a fresh array. -/
+theorem force_in_place_memory (T : Tables) (maxLen : Nat) (arr : List UInt8) (n : Nat) (hn : n ≤ arr.length)
+    (hne : (arr.take n).isEmpty = false) :
+    let v := force T maxLen (arr.take n)
+    let r := forceInPlace .buffered T maxLen arr n
+    (v.length ≤ arr.length → r.aliased = true ∧ r.arr = v ++ arr.drop v.length) ∧
+    (arr.length < v.length → r.aliased = false ∧ r.arr = arr) := by
+  intro v r
+  have hr : r = appendAtZero arr v := by
+    show forceInPlace .buffered T maxLen arr n = _
+    rw [forceInPlace_buffered T maxLen arr n hn]; simp [hne, v]
+  rw [hr]
+  unfold appendAtZero
+  constructor
+  · intro h; simp [h, poke]
+  · intro h
+    have : ¬ v.length ≤ arr.length := by omega
+    simp [this]
+
+/-- non-vacuity (and the growing case: 1 input byte, 3 output bytes, capacity 2: reallocated, caller's array intact) -/
+example : forceInPlace .buffered G 128 [0x01, 0xAA] 1 = ⟨[0xEF, 0xBF, 0xBD], [0x01, 0xAA], false⟩ := by decide
+example : forceInPlace .buffered G 128 [0x20, 0x61, 0x20, 0x20, 0x62, 0xAA] 5 =
+    ⟨[0x61, 0x20, 0x62], [0x61, 0x20, 0x62, 0x20, 0x62, 0xAA], true⟩ := by decide
+/-- why the local buffer matters: appending each rune straight to dst (`WriteMode.direct`) lets the write index
+    overtake the read index as soon as a rune grows (0x01 → U+FFFD) and the unread "host" is decoded from clobbered
+    bytes — the behaviour of the independently seeded change seeded/C11-2 ("\x01host" → five U+FFFD). -/
+example : (forceInPlace .direct G 128 [0x01, 0x68, 0x6F, 0x73, 0x74, 0xAA, 0xAA, 0xAA, 0xAA, 0xAA, 0xAA, 0xAA, 0xAA, 0xAA, 0xAA] 5).value
+      = [0xEF, 0xBF, 0xBD, 0xEF, 0xBF, 0xBD, 0xEF, 0xBF, 0xBD, 0xEF, 0xBF, 0xBD, 0xEF, 0xBF, 0xBD] ∧
+    force G 128 [0x01, 0x68, 0x6F, 0x73, 0x74] = [0xEF, 0xBF, 0xBD, 0x68, 0x6F, 0x73, 0x74] := by decide
+
+/-- The invariant that would make appending straight to dst safe — "the write index never overtakes the read index":
+    if every rune the slow path writes is no longer than what it consumed (`nonGrowing`: spaces collapsing, valid
+    printable text; NOT a control byte or a 2-byte non-printable turning into the 3-byte U+FFFD), the direct variant
+    reads the same bytes as the buffered code and returns the same value (lemma direct_eq_buffered keeps
+    `len(written) ≤ read index`, so no unread byte is overwritten).  The code as it is does not need this hypothesis
+    (force_in_place_eq); the example above shows the hypothesis cannot be dropped for the direct variant. -/
+theorem direct_safe_when_not_growing (T : Tables) (maxLen : Nat) (arr : List UInt8) (n : Nat) (hn : n ≤ arr.length)
+    (hg : nonGrowing T (n + 1) (arr.take n) true = true) :
+    (forceInPlace .direct T maxLen arr n).value = force T maxLen (arr.take n) := by
+  rw [← force_in_place_eq T maxLen arr n hn]
+  unfold forceInPlace
+  by_cases h0 : (arr.take n).isEmpty = true
+  · simp only [h0, ↓reduceIte]
+  · simp only [h0, Bool.false_eq_true, ↓reduceIte]
+    by_cases h1 : (decide ((arr.take n).length ≤ maxLen) && fastOk (arr.take n)) = true
+    · simp only [h1, ↓reduceIte]
+    · simp only [h1, Bool.false_eq_true, ↓reduceIte]
+      obtain ⟨e1, e2, _⟩ := direct_eq_buffered T maxLen (n + 1) n 0
+        { arr := arr, detached := false, out := [], prev := true }
+        { arr := arr, detached := false, out := [], prev := true } hn rfl rfl rfl (by simp) rfl
+        (by simpa using hg)
+      rw [e1, e2]
+      unfold appendAtZero
+      split <;> rfl
+
+/-- non-vacuity: messy spacing only shrinks, so it is nonGrowing; "\x01host" is not -/
+example : nonGrowing G 6 [0x20, 0x61, 0x20, 0x20, 0x62] true = true ∧
+    nonGrowing G 6 [0x01, 0x68, 0x6F, 0x73, 0x74] true = false := by decide
 
 end Normalisation
 
